@@ -165,19 +165,24 @@ func buildAccessorCalls() []accessorCall {
 	obj(`Object.Set("length", -1)`, func(vm *otto.Otto, v otto.Value, o *otto.Object) error { return o.Set("length", -1) })
 	obj(`Object.Set("length", 2)`, func(vm *otto.Otto, v otto.Value, o *otto.Object) error { return o.Set("length", 2) })
 	obj(`Object.Set("0", self)`, func(vm *otto.Otto, v otto.Value, o *otto.Object) error { return o.Set("0", v) })
-	obj(`Object.Set("k", Go values)`, func(vm *otto.Otto, v otto.Value, o *otto.Object) error {
-		var first error
-		for _, x := range []interface{}{nil, map[string]interface{}{"m": []int{1}}, []string{"a"}, &hostStruct{}, func() {}, make(chan int), complex(1, 2), uintptr(1), [2]bool{}, struct{}{}, (*int)(nil), error(nil), fmt.Errorf("e"), otto.Value{}, &otto.Object{}, (*otto.Object)(nil)} {
-			if err := o.Set("k", x); err != nil && first == nil {
-				first = err
-			}
-		}
-		return first
-	})
+	for _, gv := range goSetValues {
+		gv := gv
+		obj(fmt.Sprintf(`Object.Set("k", %s)`, gv.name), func(vm *otto.Otto, v otto.Value, o *otto.Object) error { return o.Set("k", gv.v) })
+	}
 	return out
 }
 
 var errNotObject = fmt.Errorf("not an object")
+
+var goSetValues = []struct {
+	name string
+	v    interface{}
+}{
+	{"nil", nil}, {"map[string]interface{}", map[string]interface{}{"m": []int{1}}}, {"[]string", []string{"a"}}, {"*struct", &hostStruct{}},
+	{"func()", func() {}}, {"chan int", make(chan int)}, {"complex128", complex(1, 2)}, {"uintptr", uintptr(1)}, {"[2]bool", [2]bool{}}, {"struct{}", struct{}{}},
+	{"(*int)(nil)", (*int)(nil)}, {"error", fmt.Errorf("e")}, {"otto.Value{}", otto.Value{}}, {"map[int]interface{}{1:nil}", map[int]interface{}{1: nil}},
+	{"[]interface{}{nil}", []interface{}{nil, []interface{}{nil}}}, {"time-like struct with unexported fields", struct{ a, B int }{1, 2}},
+}
 
 var accessorCalls = buildAccessorCalls()
 
@@ -269,6 +274,7 @@ func checkAccess(c accessCase) harness.Outcome {
 			name = accessorCalls[i].Name
 		}
 		out.Nontrivial = true
+		triageFatal(fmt.Sprintf("%s on the value of (%s): %s", name, expr, oneLine(fatal, 700)))
 		out.Fail = fmt.Sprintf("%s on the value of (%s): %s (replay alone with \"only\":%d)\n(property C02: the Value/Object accessors return a value or an error)", name, expr, oneLine(fatal, 700), i)
 		return out
 	}
